@@ -144,6 +144,13 @@ func (u *Unit) addObl(st *State, kind, text string, pos token.Pos, goal Term, ca
 }
 
 func (st *State) check(kind, text string, pos token.Pos, goal Term) {
+	if !st.u.safety && kind == "panic" && st.u.spec != nil && st.u.spec.Flags["checkpanics"] != "" && st.frame != nil && st.frame.parent == nil {
+		// flag checkpanics: a functional-only unit that nevertheless proves its OWN explicit panics (panic, logger.Panic*,
+		// logger.Fatal*) unreachable under its preconditions
+		st.u.addObl(st, kind, text, pos, goal, false)
+		st.assume(goal)
+		return
+	}
 	if !st.u.safety {
 		switch kind {
 		case "index", "slice", "nil", "div0", "typeassert", "panic", "overflow", "writable", "closed", "nonblocking", "sharedkey":
